@@ -364,7 +364,7 @@ static int
 canvas_report_step_log(struct report_context *r, const struct step *step)
 {
 	struct buffer *bf;
-	const char *log_path, *str;
+	const char *log_path;
 
 	arena_scope(r->scratch, s);
 
@@ -376,8 +376,8 @@ canvas_report_step_log(struct report_context *r, const struct step *step)
 		warn("%s", log_path);
 		return STEP_LOG_ERROR;
 	}
-	str = buffer_str(bf);
-	buffer_printf(r->out, "\n%s", str);
+	buffer_putc(r->out, '\n');
+	buffer_puts(r->out, buffer_get_ptr(bf), buffer_get_len(bf));
 	return STEP_LOG_HANDLED;
 }
 
@@ -770,7 +770,8 @@ report_step_log(struct report_context *r, const struct step *step)
 		return 1;
 	}
 	str = last_lines(buffer_get_ptr(bf), buffer_get_len(bf), &len, 10);
-	buffer_printf(r->out, "\n%.*s", (int)len, str);
+	buffer_putc(r->out, '\n');
+	buffer_puts(r->out, str, len);
 	if (len > 0 && str[len - 1] != '\n')
 		buffer_putc(r->out, '\n');
 
